@@ -148,6 +148,31 @@ def run(ctx, rep):
     rep.ob("C08.field-is-cell", "HeapPrimitive::set (Lookup): a field assignment writes the new value into the shared cell", "ok" if ok else "violated",
            detail, hs.span, fn=hs.path)
 
+    # ---- 1b. one identity per instance: the class body snapshots the frame once -------------------------------------
+    # make_object mints a fresh identity token each time it runs; the instance handed to the constructor as `self` and the one returned
+    # to the caller must be the *same* object value, i.e. one make_object whose result is kept in a register and loaded twice.
+    try:
+        Fc = ctx.facts("default", ["compiler"])
+        import opcodes
+        lits = [(f, nm, sp, c) for f, nm, sp, c in opcodes.instruction_literals(Fc)]
+        emit = [(f, c) for f, nm, sp, c in lits if nm == "make_object"]
+        rep.floor("C08.make_object emission sites in the compiler", len(emit), 1)
+        per_fn = {}
+        for f, c in emit:
+            per_fn.setdefault(f.path, []).append(c)
+        for path, cs in sorted(per_fn.items()):
+            f = Fc.fn(path)
+            loads = [c for f2, nm, sp, c in lits if f2 is f and nm == "load_fast"]
+            stores = [c for f2, nm, sp, c in lits if f2 is f and nm == "store_fast"]
+            ok1 = len(cs) == 1
+            rep.ob("C08.identity-source", "%s emits make_object exactly once per instance (self and the returned object are one value)" % mir.short(path),
+                   "ok" if ok1 and len(loads) >= 2 and len(stores) >= 1 else "violated",
+                   "make_object emitted %d times; load_fast %d, store_fast %d: each make_object run creates a distinct identity, so `self` captured in the "
+                   "constructor would not be `is`-equal to the object the call returns" % (len(cs), len(loads), len(stores)), cs[0].span, fn=path,
+                   key="C08.identity-source|%s|one-make_object" % mir.short(path))
+    except KeyError:
+        pass
+
     # ---- 4 -----------------------------------------------------------------------
     rc = need(F, "bytecode::variables::primitive::Primitive::runtime_addr_check")
     ids = rc.calls_to("bytecode::variables::object::Object::id_addr")
